@@ -593,7 +593,17 @@ def check(repo: Repo, run: Run) -> None:
         # own: the operations inside it are recorded, and judged, as the caller's
         inlined = f.op == "func" and c.result is not None and not (c.result.op == "call" and c.result.a[0] == f)
         is_nt = f.op == "global" and f.a[0].startswith("pykdebugparser.") and interp.namedtuple_fields(f.a[0]) is not None
-        ok = nm in allowed_calls or nm.endswith("kevent.Kevent") or nm in ("tuple", "list", "int", "bytes") or inlined or is_nt
+        ok = nm in allowed_calls or nm.endswith("kevent.Kevent") or nm in ("tuple", "list", "int", "bytes", "len") or inlined or is_nt
+        if not ok and f.op == "attr" and sym.root_of(f.a[0]).op == "global" and interp.memo_mode(sym.root_of(f.a[0]).a[0]) is not None:
+            ok = True           # bookkeeping of a table proved to be a pure memo (len / clear / get): cannot fail, changes no result
+        if not ok and f.op == "attr" and f.a[1] == "to_bytes" and len(c.args) >= 2 and c.args[0].op == "const" \
+                and isinstance(c.args[0].a[0], int) and not c.kwargs:
+            # n.to_bytes(k, order) is total when n is an unsigned field of at most 8k bits
+            try:
+                iv_ = ev.ev(f.a[0])
+                ok = isinstance(iv_, Int) and len(iv_.trimmed()) <= 8 * c.args[0].a[0]
+            except (Unsupported, Raises):
+                ok = False
         if not ok:
             # an operation this rule has no totality fact about: undecided (reported only if nothing else is wrong)
             undecided.append(f"from_kd_buf calls {nm}: not one of the decoding operations known to be total")
